@@ -1166,6 +1166,23 @@ theorem spec_leaf_dyn_witness :
       = .ok [.text ['['], .start ['p'], .text ['Y'], .start ['y'], .stop ['y'], .stop ['p'], .text [']']] := by
   decide +kernel
 
+/-- the clause of `inHS` that admits an expression-valued include inside a zone is not vacuous: `<x>` (matched, its
+    content wrapped by the match template) includes `${h0}` = `t.txt` with `parse="text"`, and a missing text template
+    with a fallback -/
+def exZoneText : Files :=
+  [[(nA, ⟨.markup, some [.elem ['d'] [
+        .matchT ['x'] [.elem ['w'] [.select]],
+        .elem ['x'] [.include (.dyn [.var ['h', '0']]) .text false [] nA,
+                     .include (.dyn [.var ['h', '1']]) .text true [.text ['F']] nA]]]⟩),
+    (nT, ⟨.text, some [.text ['T'], .var ['s', '0']]⟩)]]
+
+example : inHS (matchTags exZoneText) exZoneText = true ∧ noMtFiles exZoneText = false ∧
+    renderRuntime exZoneText nA .markup ((['h', '0'], .str nT) :: (['h', '1'], .str ['n', '.', 't', 'x', 't']) :: exData) 5
+      = renderSpec exZoneText nA .markup ((['h', '0'], .str nT) :: (['h', '1'], .str ['n', '.', 't', 'x', 't']) :: exData) 5 ∧
+    renderSpec exZoneText nA .markup ((['h', '0'], .str nT) :: (['h', '1'], .str ['n', '.', 't', 'x', 't']) :: exData) 5
+      = .ok [.start ['d'], .start ['w'], .text ['T'], .text ['v'], .text ['F'], .stop ['w'], .stop ['d']] := by
+  decide +kernel
+
 /-- non-vacuity of `runtime_eq_spec_partial`: a file set without match templates (nested and recursive
     includes, a macro crossing the file boundary, fallback, text include, expression-valued href) -/
 def exSpec : Files :=
